@@ -1,1 +1,28 @@
-import BR.Model.Lru
+import BR.Props.C01
+import BR.Props.C02
+import BR.Props.C03
+import BR.Props.C04
+import BR.Props.C05
+import BR.Props.C06
+import BR.Props.C07
+import BR.Props.C08
+import BR.Props.C09
+import BR.Props.C10
+import BR.Props.C11
+import BR.Props.C12
+import BR.Props.C13
+import BR.Props.C14
+import BR.Props.C15
+import BR.Props.C16
+import BR.Props.C17
+import BR.Props.C18
+import BR.Props.C19
+import BR.Props.C20
+import BR.Bridge.Auth
+import BR.Bridge.Backend
+import BR.Bridge.Blob
+import BR.Bridge.Disk
+import BR.Bridge.Inline
+import BR.Bridge.Lru
+
+/-! Root of the library: every property module and every Bridge module, so that a plain `lake build` re-checks the whole development. -/
